@@ -133,7 +133,42 @@ def run(res, tier, seed, wd, replay=None):
     res.cov["rule"] = "evaluations = trace events of the real sink judged by the monitor; one trace = one scenario (sink creation .. release); scenarios differ by seed / TLC behaviour"
     res.add_tlc({"distinct": v["states"], "generated": v["states"]})
     res.sample({"kind": "trace excerpt (real code)", "events": [e for e in read_ndjson(trB)[:14]]})
+    selftest(res, trB, wd)
     log("[verdict] %d events of %d traces validated by TLC against QueueProp: %d flagged rules" % (nev, ntr, len(v["bad"])))
+
+
+def selftest(res, trace_file, wd):
+    ev = read_ndjson(trace_file)
+    def good(seg):
+        oks = [e["m"] for e in seg if e["ev"] == "eret" and e["ok"]]
+        ent = [e["m"] for e in seg if e["ev"] == "wenter"]
+        return len(oks) >= 3 and set(oks) <= set(ent) and not seg[0].get("bulk") and any(e["ev"] == "quiesce" for e in seg)
+    run = first_run(ev, good)
+    if run is None:
+        raise ToolError("queue binding self-test: no suitable run")
+    def drop_delivery(seg):
+        m = next(e["m"] for e in seg if e["ev"] == "eret" and e["ok"])
+        return [e for e in seg if not (e["ev"] in ("wenter", "wleave") and e.get("m") == m)]
+    def dup_delivery(seg):
+        i = next(i for i, e in enumerate(seg) if e["ev"] == "wleave")
+        j = max(k for k in range(i) if seg[k]["ev"] == "wenter")
+        return seg[:i + 1] + [seg[j], seg[i]] + seg[i + 1:]
+    def refuse_delivered(seg):
+        m = next(e["m"] for e in seg if e["ev"] == "wenter")
+        for e in seg:
+            if e["ev"] == "eret" and e["m"] == m:
+                e["ok"] = False; e["msg"] = "channel full"; e["n"] = 0
+                return seg
+        return None
+    def wrong_counter(seg):
+        for e in seg:
+            if e["ev"] == "quiesce":
+                e["s"] = e["s"] + 1
+                return seg
+        return None
+    selftest_corruptions(res, "QueueTrace", run,
+                         [("a delivery removed", drop_delivery), ("a delivery duplicated", dup_delivery),
+                          ("a delivered metric reported refused", refuse_delivered), ("submitted counter off by one", wrong_counter)], wd, "queue")
 
 
 HAVE_REPLAY = True
